@@ -57,6 +57,16 @@ Theorem C19_slots_own_fields : forall fl (st st' : stack) c n d,
   = Some (OSlots (map f_name (filter (fun f => negb (f_inh f)) (d_fields d)) ++ extras_for fl c)).
 Proof. exact st_slots_own_fields. Qed.
 
+(* inheritance: a subclass of the new class (its MRO tail is full_mro n) sees as inherited slots the new
+   slots plus what was inherited before; in particular every field of the base is held in a slot, which
+   is the hypothesis of C19_slots_own_fields for that subclass *)
+Theorem C19_chain : forall fl (st st' : stack) b nb d,
+  c19_guard b = true -> c_dc b = Some d -> wrap repaired fl st b = (st', Ok nb) ->
+  (forall x, mem x (inherited_slots (full_mro nb))
+             = mem x (filter (not_inherited b) (fnames d) ++ extras_for fl b) || mem x (inherited_slots (c_mro b)))
+  /\ (forall f, In f (fnames d) -> mem f (inherited_slots (full_mro nb)) = true).
+Proof. exact st_chain. Qed.
+
 (* ---- instance layout (through the type_new contract) --------------------------------- *)
 Theorem C19_no_dict : forall fl (st st' : stack) c n d,
   c19_guard c = true -> c_dc c = Some d -> wrap repaired fl st c = (st', Ok n) ->
@@ -223,6 +233,7 @@ Print Assumptions C19_stack_empty_after_success.
 Print Assumptions C19_stack_restored.
 Print Assumptions C19_slots_exact.
 Print Assumptions C19_slots_own_fields.
+Print Assumptions C19_chain.
 Print Assumptions C19_no_dict.
 Print Assumptions C19_weakref_iff.
 Print Assumptions C19_preserved.
